@@ -540,6 +540,9 @@ func (fr *Frame) evalCall(e *Expr, env *Env, st *State, old *State) *Val {
 		}
 		w.declFun(e.name, sorts, "Str")
 		return term(app(e.name, ts...), types.Typ[types.String])
+	case "preexisting":
+		x := arg(0)
+		return term(fmt.Sprintf("(< (birth %s) %s)", fr.refOf(x), u.entryNow), B)
 	case "refof":
 		return sv(fr.refOf(arg(0)), "Ref")
 	case "any":
@@ -816,6 +819,29 @@ func (fr *Frame) loopEnv(h *ssa.BasicBlock, pv func(*ssa.Phi) *Val) *Env {
 					if iv, ok := fr.vals[rg]; ok && iv.K == vIter {
 						gk := "visited:" + iv.It.id
 						env.vars["visited"] = &Val{K: vTerm, T: "$visited", Srt: fr.u.ghostSort[gk], Heap: gk}
+					}
+				}
+			}
+		}
+	}
+	// result names: when the function has a single return statement whose operands are already computed
+	// (an accumulator returned at the end), the contract's result names denote them inside the loop
+	if fr.contract != nil && fr.depth == 0 {
+		var rets []*ssa.Return
+		for _, b := range fr.fn.Blocks {
+			if len(b.Instrs) > 0 {
+				if r, ok := b.Instrs[len(b.Instrs)-1].(*ssa.Return); ok {
+					rets = append(rets, r)
+				}
+			}
+		}
+		if len(rets) == 1 {
+			for i, rn := range fr.contract.Results {
+				if i < len(rets[0].Results) {
+					if v, ok := fr.vals[rets[0].Results[i]]; ok && v.K == vTerm {
+						if _, had := env.vars[rn]; !had {
+							env.vars[rn] = v
+						}
 					}
 				}
 			}
